@@ -154,7 +154,7 @@ Definition py_report (q : squirks) (cfg : conf) (f : sfile) : list rep :=
 
 (* ------------------------------------------------------------------ TypeScript / JavaScript *)
 Definition ts_class_node (k : ckind) : string :=
-  match k with CPlain | CExport => "class_declaration" | CAbstract | CExportAbstract => "abstract_class_declaration" end.
+  match k with CPlain | CExport | CExportDefault => "class_declaration" | CAbstract | CExportAbstract => "abstract_class_declaration" end.
 Definition ts_member_node (k : mkind) : string :=
   match k with MField => "public_field_definition" | _ => "method_definition" end.
 Definition ts_name_node (k : mkind) : string :=
